@@ -165,7 +165,7 @@ class Elf(BinFormat):
         # loaded by the kernel binfmt_elf.c loader.
         if self.Shdr:
             for s in reversed(self.Shdr):
-                if s.sh_type != SHT_PROGBITS:
+                if s.sh_type != SHT_PROGBITS or not (s.sh_flags & SHF_ALLOC):
                     continue
                 if s.sh_addr <= addr < s.sh_addr + s.sh_size:
                     return s, addr - s.sh_addr, s.sh_addr
